@@ -33,6 +33,34 @@ def valid : Bytes → Bool
       | _ => false
     else false
 
+/-- `viable bs`: bs is a prefix of some valid UTF-8 string (complete characters valid, the
+    tail a proper prefix of a valid character) -/
+def viable : Bytes → Bool
+  | [] => true
+  | b0 :: rest =>
+    let x := b0.toNat
+    if x < 0x80 then viable rest
+    else if 0xC2 ≤ x ∧ x ≤ 0xDF then
+      match rest with
+      | [] => true
+      | b1 :: r => isCont b1 && viable r
+    else if 0xE0 ≤ x ∧ x ≤ 0xEF then
+      let lo := if x = 0xE0 then 0xA0 else 0x80
+      let hi := if x = 0xED then 0x9F else 0xBF
+      match rest with
+      | [] => true
+      | [b1] => lo ≤ b1.toNat && b1.toNat ≤ hi
+      | b1 :: b2 :: r => (lo ≤ b1.toNat && b1.toNat ≤ hi) && isCont b2 && viable r
+    else if 0xF0 ≤ x ∧ x ≤ 0xF4 then
+      let lo := if x = 0xF0 then 0x90 else 0x80
+      let hi := if x = 0xF4 then 0x8F else 0xBF
+      match rest with
+      | [] => true
+      | [b1] => lo ≤ b1.toNat && b1.toNat ≤ hi
+      | [b1, b2] => (lo ≤ b1.toNat && b1.toNat ≤ hi) && isCont b2
+      | b1 :: b2 :: b3 :: r => (lo ≤ b1.toNat && b1.toNat ≤ hi) && isCont b2 && isCont b3 && viable r
+    else false
+
 /-- `chars.CalculateRuneByteCount` (table `runeByteCounts[b>>3]`): 0 for continuation bytes
     and for 0xF8..0xFF -/
 def runeByteCount (b : UInt8) : Nat :=
